@@ -321,6 +321,12 @@ func wellTyped(t types.Type, ls []*Term, ctr *Term) []*Term {
 			i++
 		case KArr:
 			i += len(leavesOf(t))
+		case KFunc:
+			// a function value is nil, a named function (negative address) or a closure object
+			if ctr != nil {
+				out = append(out, app(SBool, "<=", ls[i], ctr))
+			}
+			i++
 		default:
 			i++
 		}
